@@ -49,6 +49,7 @@ POOL = {
     "X2": ["tbl", "tb", None, "tp2"],  # another table that already answers to the name the first self-join of tp would get
     "Q": ["sub", SUBP, "qq"], "QN": ["sub", SUBP, None], "QN2": ["sub", SUBP2, None], "UN": ["sub", SUBU, None],
     # QU: a query object an earlier statement used already: it carries the alias sq0 from there
+    "QI": ["sub", SUBP2, None],  # the un-aliased source of a correlated subquery (named by the INNER statement)
     "QU": ["sub", SUBP2, None, {"preused": True}], "QD": ["sub", SUBP2, None, {"preused": True, "derived": True}], "C": ["cte", "cc"], "F": ["tbl", "tf", None, None],
 }
 
@@ -70,10 +71,10 @@ def auto_names(case):
         if key in out or key not in POOL:
             continue
         spec = POOL[key]
-        if key == "QU":
-            out[key] = "sq0"
+        if key == "QU" and "sq0" not in used:
+            out[key] = "sq0"  # the alias it carries from the earlier statement - unless another source of this one answers to it already
             used.add("sq0")
-        elif key in AUTO:
+        elif key in AUTO or key == "QU":
             while "sq%d" % nsq in used:
                 nsq += 1  # a name that addresses a source already is not given again
             out[key] = "sq%d" % nsq
@@ -143,6 +144,8 @@ class Builder:
     def corr(self, outer_key):
         """outer.x IN (SELECT n.k FROM n WHERE outer.m = n.m): ONE column name m on both sides of the correlation"""
         ik = self.d(st.sampled_from(["N", "N", "NA"]))
+        if outer_key in AUTO + ("QU",) and self.d(st.booleans()):
+            ik = "QI"  # both levels read from an un-aliased subquery: each statement names its own - the two names must differ
         self.n += 1
         m = "f%d" % self.n
         if self.d(st.integers(0, 3)) == 0:
@@ -446,7 +449,10 @@ def check_program(case):
     clash = sorted(k for ks in names.values() if len(ks) > 1 for k in ks)
     if clash and any(o[1] in clash for o in case["occ"]):
         # (same table name in two schemas: both are addressed as "name" - the references cannot be told apart)
-        return [(mksig("any", case["kind"], "ambiguous_source_name"), "sources %r are all addressed as %r in %r" % (clash, [n for n, ks in names.items() if len(ks) > 1], sql))]
+        if not any(k in AUTO + ("QU",) for k in clash) and all(is_aliased(k) for k in clash):
+            return []  # the caller gave two sources the same alias: not a statement the property speaks of
+        tag = "|automatic_alias" if any(k in AUTO + ("QU",) for k in clash) else ""  # (two root causes: tables of one name / a subquery's sqN)
+        return [(mksig("any", case["kind"], "ambiguous_source_name") + tag, "sources %r are all addressed as %r in %r" % (clash, [n for n, ks in names.items() if len(ks) > 1], sql))]
     # a name that qualifies references is a name the statement defines: an explicit or automatic alias stands, at least once, where it is
     # not a qualifier (after its source in FROM / JOIN / UPDATE / INTO)
     for key in case["sources"]:
@@ -465,7 +471,12 @@ def check_program(case):
         idx = [i for i, t in enumerate(toks) if t.kind == "qid" and t.value == corr[0][0]]
         got = [qualifier_before(toks, i) for i in idx]
         want = [qual_name(o[1], auto_names(case).get(o[1])) for o in corr]
-        if got != want:
+        if "QI" in (corr[0][1], corr[1][1]):
+            # the inner statement names its own source: any name will do that is not the outer source's
+            if None not in got and got[0] == got[1]:
+                out.append((mksig("any", case["kind"], "correlated", "automatic_alias_on_both_levels"),
+                            "column %s of the outer source %s and of the inner subquery's own un-aliased source carry the same qualifier %r: the inner one shadows the outer (%r)" % (corr[0][0], [o[1] for o in corr if o[1] != "QI"][0], got[0], sql)))
+        elif got != want:
             fail = "missing_qualifier" if None in got else "wrong_qualifier"
             out.append((mksig("any", case["kind"], "correlated", "same_name", fail),
                         "column %s of %s and of %s in a correlated subquery: expected qualifiers %r, rendered %r in %r" % (corr[0][0], corr[0][1], corr[1][1], want, got, sql)))
@@ -562,7 +573,7 @@ def valid_case(case):
         if ncorr:
             co = next(o for o in case["occ"] if o[2] == "corr_outer")
             ci = next(o for o in case["occ"] if o[2] == "corr_inner")
-            if co[1] == ci[1] or co[1] not in case["sources"] or ci[1] not in ("N", "NA") or co[0] != ci[0]:
+            if co[1] == ci[1] or co[1] not in case["sources"] or ci[1] not in ("N", "NA", "QI") or (ci[1] == "QI" and co[1] not in AUTO + ("QU",)) or co[0] != ci[0]:
                 return False  # the outer column belongs to a source of the statement, the inner one to the subquery's own table
         if len(set(names)) != len(names) or any(not _re.fullmatch(r"f[0-9]+", n) for n in names):
             return False
